@@ -22,6 +22,7 @@ type c10Case struct {
 	Kind string   `json:"kind"` // acct | tx | ...
 	Acct *c10Acct `json:"acct,omitempty"`
 	Tx   *c10Tx   `json:"tx,omitempty"`
+	Order *c10Order `json:"order,omitempty"`
 	// raw bytes for decode-only (malformed) cases
 	Raw string `json:"raw,omitempty"`
 }
@@ -420,6 +421,13 @@ func runC10(r *Run) {
 			c.acctDB(n)
 			i += n
 		case x < 80:
+			n := 4 + r.Rng.Intn(8)
+			c.orderDB(n)
+			i += n
+		case x < 85:
+			c.orderMalformed()
+			i++
+		case x < 92:
 			c.acctMalformed()
 			i++
 		default:
